@@ -152,7 +152,7 @@ func c06Gen(r *rand.Rand, tier string) *sim.Scn {
 			}
 			s.Ops = append(s.Ops, op)
 		case x < 80:
-			s.Ops = append(s.Ops, sim.Op{K: "da", A: r.Int64N(12), B: r.Int64N(5), C: r.Int64N(2)})
+			s.Ops = append(s.Ops, sim.Op{K: "da", A: r.Int64N(14), B: r.Int64N(5), C: r.Int64N(2)})
 		case x < 90:
 			s.Ops = append(s.Ops, sim.Op{K: "include"})
 		case x < 95:
